@@ -15,6 +15,7 @@ mod rt;
 mod proxy;
 mod refpeer;
 mod scen_adv;
+mod scen_c05u;
 mod scen_c08;
 mod scen_c08u;
 mod scen_c10;
@@ -43,6 +44,7 @@ fn generate(prop: &str, seed: u64, thorough: bool) -> Option<Plan> {
         "C03" => Some(scen_ref::gen_c03(seed, thorough)),
         "C04" => Some(scen_link::gen_c04(seed, thorough)),
         "C05" => Some(scen_link::gen_c05(seed, thorough)),
+        "C05udp" => Some(scen_c05u::gen_c05u(seed, thorough)),
         "C06" => Some(scen_adv::gen_adv("C06", seed, thorough)),
         "C07" => Some(scen_adv::gen_adv("C07", seed, thorough)),
         "C08" => Some(scen_c08::gen_c08(seed, thorough)),
@@ -68,6 +70,7 @@ fn execute(plan: &Plan) -> Outcome {
         "independence" => scen_tcp::execute_c09(plan),
         "link-seg" => scen_link::execute_c04(plan),
         "link-tamper" => scen_link::execute_c05(plan),
+        "dgram-tamper" => scen_c05u::execute_c05u(plan),
         "local-hs" => scen_local::execute_c13(plan),
         "teardown" => scen_c15::execute_c15(plan),
         "survival" => scen_c08::execute_c08(plan),
